@@ -382,6 +382,7 @@ class Machine:
         self._feas_n = 0
         self._synth = {}
         self._lemmas_done = False
+        self.ord_prefix = ""
 
     # ---- infrastructure -------------------------------------------------
     def fresh(self, prefix, sort):
@@ -522,6 +523,11 @@ class Machine:
                 for f in ("src", "src2"):
                     if (v.id, f) in self.heap:
                         work.append(self.heap[(v.id, f)])
+                for f in ("deps", "srcs", "tee_kids"):
+                    if (v.id, f) in self.heap:
+                        work.extend(self.heap[(v.id, f)])
+                if self.heap.get((v.id, "owner")) is not None:
+                    work.append(self.heap[(v.id, "owner")])
             elif isinstance(v, (tuple, list)):
                 work.extend(v)
             elif isinstance(v, Closure):
@@ -529,6 +535,10 @@ class Machine:
         return out
 
     def havoc_ref(self, r):
+        if r.kind == "zip":
+            return
+        if r.kind == "iter" and self.heap.get((r.id, "owner")) is not None:
+            return      # position is a function of the owning view's position
         if r.kind == "obj":
             for f in self.heap[(r.id, "__fields__")]:
                 old = self.heap[(r.id, f)]
@@ -542,8 +552,11 @@ class Machine:
             sort = old.sort() if is_z3(old) else INT
             self.heap[(r.id, f)] = self.fresh("hv_%s_%s" % (f, r.id.replace("#", "_")), sort)
         if r.kind == "iter":
+            if (r.id, "stopped") in self.heap:
+                self.heap[(r.id, "stopped")] = self.fresh("hv_stopped", BOOL)
             self.assume(self.heap[(r.id, "pos")] >= 0)
             self.assume(z3.Or(self.heap[(r.id, "inf")], self.heap[(r.id, "pos")] <= self.heap[(r.id, "len")]))
+            self.sync(r)
         if r.kind == "list":
             self.assume(self.heap[(r.id, "len")] >= 0)
 
@@ -570,7 +583,7 @@ class Machine:
     def iter_of(self, v):
         """iter(v)"""
         if isinstance(v, Ref):
-            if v.kind in ("iter", "gen"):
+            if v.kind in ("iter", "gen", "zip"):
                 return v
             if v.kind == "list":
                 return self.new_iter(v.elem, "list", finite=True, arr=self.heap[(v.id, "arr")], length=self.heap[(v.id, "len")])
@@ -595,27 +608,68 @@ class Machine:
         raise Unsupported("iter() of %r" % (v,))
 
     def it_has_next(self, it):
+        if it.kind == "zip":
+            return z3.And(*[self.it_has_next(s) for s in self.heap[(it.id, "srcs")]])
         return z3.Or(self.heap[(it.id, "inf")], self.heap[(it.id, "pos")] < self.heap[(it.id, "len")])
 
     def it_exhausted(self, it):
+        if it.kind == "zip":
+            return z3.Or(*[self.it_exhausted(s) for s in self.heap[(it.id, "srcs")]])
         return z3.And(z3.Not(self.heap[(it.id, "inf")]), self.heap[(it.id, "pos")] >= self.heap[(it.id, "len")])
 
     def it_advance(self, it):
         """precondition: has_next assumed"""
+        if it.kind == "zip":
+            return tuple(self.it_advance(s) for s in self.heap[(it.id, "srcs")])
+        self.check_not_owned(it)
         pos = self.heap[(it.id, "pos")]
-        pre = self.heap.get((it.id, "pre_next"))
-        if pre is not None:
-            pre(self, it)
         val = z3.simplify(self.heap[(it.id, "arr")][pos])
         self.heap[(it.id, "pos")] = z3.simplify(pos + 1)
+        self.sync(it)
         return val
 
+    def check_not_owned(self, it):
+        """an iterator that feeds a tee / a lazy view must not be read directly:
+        the items would be lost for the copies (C03 independence)"""
+        if self.heap.get((it.id, "owner")) is not None and not self.spec_mode:
+            self.oblige("ownership/source-of-a-tee-or-view-read-directly", False,
+                        note="line %d reads an iterator that is shared with tee copies or wrapped by a lazy view" % self.curline)
+
+    def sync(self, it):
+        f = self.heap.get((it.id, "sync"))
+        if f is not None:
+            f(self, it)
+            for d in self.heap.get((it.id, "deps"), ()):
+                self.sync(d)
+
+    def it_on_stop(self, it):
+        """side effects of discovering that `it` is exhausted"""
+        if it.kind == "zip":
+            # the sources before the first exhausted one have been pulled once more
+            srcs = self.heap[(it.id, "srcs")]
+            opts = []
+            for j, sj in enumerate(srcs):
+                cond = z3.And(*([self.it_has_next(x) for x in srcs[:j]] + [self.it_exhausted(sj)]))
+                opts.append(("stop@%d" % j, cond))
+            j = self.choose(opts)
+            for x in srcs[:j]:
+                self.it_advance(x)
+            self.it_on_stop(srcs[j])
+            return
+        if (it.id, "stopped") in self.heap:
+            self.heap[(it.id, "stopped")] = z3.BoolVal(True)
+            self.sync(it)
+        for d in self.heap.get((it.id, "deps"), ()):
+            if (d.id, "stopped") in self.heap:
+                pass
+
     def do_next(self, it, default=None):
-        if not (isinstance(it, Ref) and it.kind == "iter"):
+        if not (isinstance(it, Ref) and it.kind in ("iter", "zip")):
             raise Unsupported("next() of a non-iterator %r" % (it,))
         i = self.choose([("next", self.it_has_next(it)), ("stop", self.it_exhausted(it))])
         if i == 0:
             return self.it_advance(it)
+        self.it_on_stop(it)
         raise PyRaise("StopIteration")
 
     # ---- expression evaluation -------------------------------------------------
@@ -720,6 +774,8 @@ class Machine:
         if isinstance(v, Ref):
             if v.kind == "list":
                 return self.heap[(v.id, "len")] > 0
+            if v.kind == "teelist":
+                return self.heap[(v.id, "count")] > 0
             if v.kind == "deque":
                 return self.heap[(v.id, "hi")] - self.heap[(v.id, "lo")] > 0
             return True
@@ -962,6 +1018,13 @@ class Machine:
                     raise PyRaise("IndexError")
                 j = i if (isinstance(idx, int) and idx >= 0) else z3.If(i >= 0, i, i + n)
                 return z3.simplify(self.heap[(base.id, "arr")][j])
+            if base.kind == "teelist":
+                from . import views
+                if isinstance(idx, int) and idx == 0 and not self.spec_mode:
+                    if self.branch(self.heap[(base.id, "count")] <= 0):
+                        raise PyRaise("IndexError")
+                    return views.teelist_child(self, base)
+                raise Unsupported("index into a tee list")
             if base.kind == "deque":
                 lo, hi = self.heap[(base.id, "lo")], self.heap[(base.id, "hi")]
                 i = to_z3num(idx)
@@ -971,7 +1034,7 @@ class Machine:
                     raise PyRaise("IndexError")
                 j = z3.If(i >= 0, lo + i, hi + i)
                 return z3.simplify(self.heap[(base.id, "hist")][j])
-        if is_z3(base) and z3.is_array(base):
+        if is_z3(base) and (z3.is_array(base) or (z3.is_quantifier(base) and base.is_lambda())):
             return base[to_z3num(idx)]
         h = self.c.index_hook
         if h is not None:
@@ -994,6 +1057,11 @@ class Machine:
         return self.getattr(base, node.attr)
 
     def getattr(self, base, attr):
+        if isinstance(base, SuperProxy):
+            h = self.callees.get(("super:" + base.cls, attr))
+            if h is None:
+                raise Unsupported("super().%s" % attr)
+            return BoundMethod(base.obj, h, attr)
         if isinstance(base, Ref) and base.kind == "obj":
             if (base.id, attr) in self.heap:
                 return self.heap[(base.id, attr)]
@@ -1019,6 +1087,9 @@ class Machine:
         for a in node.args:
             if consuming and isinstance(a, ast.GeneratorExp) and not self.spec_mode:
                 out, nout, elem = self.run_comp(a, lazy=False)
+                if elem is None:
+                    args.append(out)     # unrolled over a concrete tuple
+                    continue
                 rid = self.new_id("consumed")
                 r = Ref("consumed", rid, elem)
                 self.heap[(rid, "out")], self.heap[(rid, "n")] = out, nout
@@ -1084,7 +1155,90 @@ class Machine:
                 return self.eval(node.body)
             finally:
                 self.locals = saved
-        raise Unsupported("call of a nested def (give it a contract)")
+        return self.call_nested_def(f, args, kwargs)
+
+    def call_nested_def(self, f, args, kwargs):
+        node = f.node
+        a = node.args
+        if a.vararg or a.kwarg or a.kwonlyargs:
+            raise Unsupported("nested def with *args/**kwargs")
+        names = [x.arg for x in a.args]
+        bound = dict(zip(names, args))
+        for k, v in kwargs.items():
+            if k in bound or k not in names:
+                raise PyRaise("TypeError")
+            bound[k] = v
+        defaults = dict(zip(names[len(names) - len(a.defaults):], a.defaults))
+        for nme in names:
+            if nme not in bound:
+                if nme not in defaults:
+                    raise PyRaise("TypeError")
+                bound[nme] = self.eval(defaults[nme])
+        name = node.name
+        is_gen = contains_yield(node.body) and not any(isinstance(x, (ast.FunctionDef, ast.Lambda)) and contains_yield([x]) and not contains_yield([y for y in node.body if y is not x]) for x in node.body)
+        sub_loops, sub_yields, sub_comps = loop_and_yield_ordinals(node)
+        saved = (self.loop_ord, self.yield_ord, self.comp_ord, self.locals, self.ord_prefix)
+        self.loop_ord = {k: "%s.%d" % (name, v) for k, v in sub_loops.items()}
+        self.yield_ord = {k: "%s.%d" % (name, v) for k, v in sub_yields.items()}
+        self.comp_ord = {k: "%s.%d" % (name, v) for k, v in sub_comps.items()}
+        self.ord_prefix = name + "."
+        env = dict(f.env)
+        env.update(bound)
+        try:
+            if not is_gen:
+                self.locals = env
+                try:
+                    self.exec_block(node.body)
+                    return None
+                except _Return as r:
+                    return r.value
+            # generator: nothing runs at the call; the body is verified here as a
+            # generator of its own and the state is rolled back
+            cspec = self.c.comps.get(name)
+            if cspec is None:
+                raise Unsupported("nested generator %s has no clauses in the sidecar" % name)
+            snap = self.snapshot()
+            self.locals = env
+            outer_ghost = self.ghost
+            self.ghost = {k: v for k, v in outer_ghost.items() if k in self.c.ghost_const}
+            self.ghost["nout"] = z3.IntVal(0)
+            self.ghost["out"] = self.fresh("gout_" + name, z3.ArraySort(INT, cspec.elem.sort))
+            for text in cspec.ghost_init:
+                self.ghost_exec(text)
+            was_gen = self.is_generator
+            self.is_generator = True
+            self.covered.add(name)
+            try:
+                try:
+                    try:
+                        self.exec_block(node.body)
+                    except _Return:
+                        pass
+                except PyRaise as e:
+                    exc = "RuntimeError" if e.exc == "StopIteration" else e.exc
+                    if exc in cspec.raises:
+                        cond = cspec.raises[exc]
+                        self.oblige("%s/raises/%s/only-if" % (name, exc), True if cond is None else self.spec(cond))
+                    else:
+                        self.oblige("%s/raises/%s/never" % (name, exc), False,
+                                    note="exception %s escapes the nested generator at line %d%s" % (
+                                        exc, self.curline, " (StopIteration inside a generator, PEP 479)" if exc != e.exc else ""))
+                    raise PathEnd()
+                for label, text in cspec.ensures:
+                    self.oblige("%s/exit/%s" % (name, label), self.spec(text))
+            finally:
+                self.is_generator = was_gen
+            self.restore(snap)
+            rid = self.new_id("gen")
+            r = Ref("gen", rid, cspec.elem)
+            self.heap[(rid, "label")] = name
+            srcs = [v for v in bound.values() if isinstance(v, Ref)]
+            self.heap[(rid, "src")] = srcs[0] if srcs else None
+            return r
+        finally:
+            self.loop_ord, self.yield_ord, self.comp_ord, _, self.ord_prefix = saved
+            if not (is_gen):
+                self.locals = saved[3]
 
     def call_method(self, bm, args, kwargs):
         base, attr = bm.base, bm.attr
@@ -1107,6 +1261,13 @@ class Machine:
                     raise PyRaise("IndexError")
                 self.heap[(base.id, "lo")] = z3.simplify(lo + 1)
                 return z3.simplify(hist[lo])
+        if base.kind == "teelist":
+            from . import views
+            if attr == "pop" and not args:
+                if self.branch(self.heap[(base.id, "count")] <= 0):
+                    raise PyRaise("IndexError")
+                self.heap[(base.id, "count")] = z3.simplify(self.heap[(base.id, "count")] - 1)
+                return views.teelist_child(self, base)
         if base.kind == "list":
             arr, n = self.heap[(base.id, "arr")], self.heap[(base.id, "len")]
             if attr == "append":
@@ -1159,12 +1320,14 @@ class Machine:
             raise Unsupported("comprehension with several for-clauses")
         g = node.generators[0]
         n = self.comp_ord[id(node)]
+        if not isinstance(n, int):
+            n_label = n
         elt = node.elt if not isinstance(node, ast.DictComp) else ast.Tuple(elts=[node.key, node.value], ctx=ast.Load())
         y = ast.Yield(value=elt)
         body = ast.Expr(value=y)
         for cond in reversed(g.ifs):
             body = ast.If(test=cond, body=[body], orelse=[])
-        itname = "__comp_iter_%d" % n
+        itname = "__comp_iter_%s" % n
         forn = ast.For(target=g.target, iter=ast.Name(id=itname, ctx=ast.Load()), body=[body], orelse=[])
         for nd in ast.walk(forn):
             if not hasattr(nd, "lineno"):
@@ -1172,7 +1335,7 @@ class Machine:
                 nd.col_offset = node.col_offset
         ast.fix_missing_locations(forn)
         self.loop_ord[id(forn)] = self.loop_ord[id(node)]
-        self.yield_ord[id(y)] = "g%d" % n
+        self.yield_ord[id(y)] = "g%s" % n
         self._synth[key] = (forn, itname, n, g)
         return self._synth[key]
 
@@ -1183,21 +1346,28 @@ class Machine:
         returns (out array, count)."""
         forn, itname, n, g = self.comp_loop(node)
         cspec = self.c.comps.get(n)
-        if cspec is None:
-            raise Unsupported("comprehension %d (line %d) has no clauses in the sidecar" % (n, node.lineno))
         itv = self.eval(g.iter)
+        if cspec is None and isinstance(itv, tuple) and not lazy:
+            vals = []
+            for x in itv:
+                self.assign(g.target, x)
+                if all(self.branch(self.truth(self.eval(c))) for c in g.ifs):
+                    vals.append(self.eval(node.elt))
+            return tuple(vals), len(vals), None
+        if cspec is None:
+            raise Unsupported("comprehension %s (line %d) has no clauses in the sidecar" % (n, node.lineno))
         it = self.iter_of(itv)           # evaluated eagerly, as Python does
         snap = self.snapshot() if lazy else None
         self.locals[itname] = it
         outer_ghost = self.ghost
         self.ghost = {k: v for k, v in outer_ghost.items() if k in self.c.ghost_const}
         self.ghost["nout"] = z3.IntVal(0)
-        self.ghost["out"] = self.fresh("gout%d" % n, z3.ArraySort(INT, cspec.elem.sort))
+        self.ghost["out"] = self.fresh("gout%s" % n, z3.ArraySort(INT, cspec.elem.sort))
         for text in cspec.ghost_init:
             self.ghost_exec(text)
         was_gen = self.is_generator
         self.is_generator = True
-        self.covered.add("g%d" % n)
+        self.covered.add("g%s" % n)
         try:
             try:
                 self.exec(forn)
@@ -1205,9 +1375,9 @@ class Machine:
                 exc = "RuntimeError" if e.exc == "StopIteration" else e.exc
                 if exc in cspec.raises:
                     cond = cspec.raises[exc]
-                    self.oblige("g%d/raises/%s/only-if" % (n, exc), True if cond is None else self.spec(cond))
+                    self.oblige("g%s/raises/%s/only-if" % (n, exc), True if cond is None else self.spec(cond))
                 else:
-                    self.oblige("g%d/raises/%s/never" % (n, exc), False,
+                    self.oblige("g%s/raises/%s/never" % (n, exc), False,
                                 note="exception %s escapes the generator expression at line %d%s" % (
                                     exc, self.curline, " (StopIteration inside a generator, PEP 479)" if exc != e.exc else ""))
                 if lazy:
@@ -1216,10 +1386,10 @@ class Machine:
                 self.ghost = outer_ghost
                 raise PyRaise(exc)
             for label, text in cspec.ensures:
-                self.oblige("g%d/exit/%s" % (n, label), self.spec(text))
+                self.oblige("g%s/exit/%s" % (n, label), self.spec(text))
             for exc, cond in cspec.raises.items():
                 if cond is not None:
-                    self.oblige("g%d/exit/no-%s" % (n, exc), z3.Not(to_bool(self.spec(cond))))
+                    self.oblige("g%s/exit/no-%s" % (n, exc), z3.Not(to_bool(self.spec(cond))))
             out, nout = self.ghost["out"], self.ghost["nout"]
         finally:
             self.is_generator = was_gen
@@ -1228,7 +1398,7 @@ class Machine:
             self.restore(snap)
             rid = self.new_id("gen")
             r = Ref("gen", rid, cspec.elem)
-            self.heap[(rid, "label")] = "g%d" % n
+            self.heap[(rid, "label")] = "g%s" % n
             self.heap[(rid, "src")] = it
             return r
         self.locals.pop(itname, None)
@@ -1334,6 +1504,11 @@ class Machine:
                 h(self, base, t.slice, v)
                 return
             idx = self.eval(t.slice)
+            if isinstance(base, Ref) and base.kind == "teelist":
+                # replacing an unread child by an (equivalent) unread tee copy of it
+                if isinstance(idx, int) and idx == 0 and isinstance(v, Ref) and v.kind == "iter":
+                    return
+                raise Unsupported("assignment into a tee list")
             if isinstance(base, Ref) and base.kind == "list":
                 n = self.heap[(base.id, "len")]
                 i = to_z3num(idx)
@@ -1451,13 +1626,13 @@ class Machine:
 
     def check_invs(self, n, spec, phase):
         for label, text in spec.inv:
-            self.oblige("loop%d/%s/%s" % (n, phase, label), self.spec(text))
+            self.oblige("loop%s/%s/%s" % (n, phase, label), self.spec(text))
 
     def s_For(self, node):
         n, spec = self.loop_spec(node)
         itv = self.eval(node.iter)
         it = self.iter_of(itv)
-        self.hidden["_it%d" % n] = it
+        self.hidden["_it%s" % str(n).replace(".", "_")] = it
         if spec is None:
             # concrete unrolling when the iteration count is a small literal
             ln, pos = z3.simplify(self.heap[(it.id, "len")]), z3.simplify(self.heap[(it.id, "pos")])
@@ -1476,8 +1651,8 @@ class Machine:
                 if not broke:
                     self.exec_block(node.orelse)
                 return
-            raise Unsupported("loop %d (line %d) has no invariant in the sidecar" % (n, node.lineno))
-        self.covered.add("loop%d" % n)
+            raise Unsupported("loop %s (line %d) has no invariant in the sidecar" % (n, node.lineno))
+        self.covered.add("loop%s" % n)
         self.check_invs(n, spec, "init")
         self.havoc_for_loop([node], extra_refs=[it])
         for label, text in spec.inv:
@@ -1497,16 +1672,17 @@ class Machine:
             if variant0 is not None:
                 v1 = self.spec_value(spec.variant)
                 # progress between yields: an iteration either yields or decreases the variant
-                self.oblige("loop%d/variant" % n, zor(self.ghost["nout"] != nout0,
+                self.oblige("loop%s/variant" % n, zor(self.ghost["nout"] != nout0,
                                                       zand(to_z3num(v1) < to_z3num(variant0), to_z3num(variant0) >= 0)))
             raise PathEnd()
+        self.it_on_stop(it)
         self.exec_block(node.orelse)
 
     def s_While(self, node):
         n, spec = self.loop_spec(node)
         if spec is None:
-            raise Unsupported("loop %d (line %d) has no invariant in the sidecar" % (n, node.lineno))
-        self.covered.add("loop%d" % n)
+            raise Unsupported("loop %s (line %d) has no invariant in the sidecar" % (n, node.lineno))
+        self.covered.add("loop%s" % n)
         self.check_invs(n, spec, "init")
         self.havoc_for_loop([node])
         for label, text in spec.inv:
@@ -1525,7 +1701,7 @@ class Machine:
             if variant0 is not None:
                 v1 = self.spec_value(spec.variant)
                 # progress between yields: an iteration either yields or decreases the variant
-                self.oblige("loop%d/variant" % n, zor(self.ghost["nout"] != nout0,
+                self.oblige("loop%s/variant" % n, zor(self.ghost["nout"] != nout0,
                                                       zand(to_z3num(v1) < to_z3num(variant0), to_z3num(variant0) >= 0)))
             raise PathEnd()
         self.exec_block(node.orelse)
@@ -1657,6 +1833,11 @@ class Machine:
         else:
             self.oblige("raises/%s/never" % exc, False,
                         note="exception %s escapes at line %d%s" % (exc, self.curline, " (StopIteration inside a generator, PEP 479)" if e.exc != exc else ""))
+
+
+class SuperProxy:
+    def __init__(self, cls, obj):
+        self.cls, self.obj = cls, obj
 
 
 class CallRes:
@@ -1809,6 +1990,8 @@ def _sf_same(m, node):
     a, b = m.eval(node.args[0]), m.eval(node.args[1])
     if isinstance(a, Ref) and isinstance(b, Ref):
         return a.id == b.id
+    if is_z3(a) and is_z3(b):
+        return a.eq(b)
     return a is b
 
 
@@ -1860,7 +2043,23 @@ def _sf_call_arg(m, node):
     raise Unsupported("call_arg() of %r" % (v,))
 
 
+def _sf_count(m, node):
+    v = m.eval(node.args[0])
+    return m.heap[(v.id, "count")]
+
+
+def _sf_iters_of(m, node):
+    v = m.eval(node.args[0])
+    return m.heap[(v.id, "_iters")]
+
+
+def _sf_late(m, node):
+    v = m.eval(node.args[0])
+    return bool(m.heap.get((v.id, "late_bound"), False))
+
+
 SPEC_FUNCS = {
+    "late_bound": _sf_late, "count": _sf_count, "data_of_iters": _sf_iters_of,
     "RINT": _sf_rint, "TRUNC": _sf_trunc, "call_of": _sf_call_of, "call_arg": _sf_call_arg,
     "FDIV": _sf_fdiv, "is_stream": _sf_is_stream, "data_of": _sf_data_of, "gen_label": _sf_gen_label, "src_of": _sf_src_of,
     "same": _sf_same, "captured": _sf_captured, "is_closure": _sf_is_closure,
@@ -2012,6 +2211,29 @@ def _b_list(m, args, kw):
     r = _consumed_to_list(m, args[0])
     if r is not None:
         return r
+    a0 = args[0]
+    if isinstance(a0, Ref) and a0.kind == "obj":
+        a0 = m.iter_of(a0)
+    if isinstance(a0, Ref) and a0.kind == "iter":
+        # consumes everything that remains; never returns on an endless iterator
+        if m.branch(m.heap[(a0.id, "inf")]):
+            m.covered.add("diverges")
+            raise PathEnd()
+        m.check_not_owned(a0)
+        p0, n = m.heap[(a0.id, "pos")], m.heap[(a0.id, "len")]
+        j = z3.Int("j!lst%d" % m.counter)
+        m.counter += 1
+        res = m.new_list(a0.elem, arr=z3.Lambda([j], m.heap[(a0.id, "arr")][p0 + j]), length=z3.simplify(n - p0))
+        m.heap[(a0.id, "pos")] = n
+        m.sync(a0)
+        m.it_on_stop(a0)
+        return res
+    if isinstance(a0, tuple):
+        return a0
+    if isinstance(a0, Ref) and a0.kind == "list":
+        return m.new_list(a0.elem, arr=m.heap[(a0.id, "arr")], length=m.heap[(a0.id, "len")])
+    if isinstance(a0, Ref) and a0.kind == "teelist":
+        return a0
     h = m.c.consume_hook
     if h is None:
         raise Unsupported("list(iterable)")
@@ -2071,12 +2293,45 @@ def _b_uniform(m, args, kw):
     return r
 
 
+def _b_all(m, args, kw):
+    (v,) = args
+    if isinstance(v, tuple):
+        ts = [m.truth(x) for x in v]
+        if all(isinstance(t, bool) for t in ts):
+            return all(ts)
+        return zand(*ts)
+    raise Unsupported("all() of %r" % (v,))
+
+
+def _b_any(m, args, kw):
+    (v,) = args
+    if isinstance(v, tuple):
+        ts = [m.truth(x) for x in v]
+        if all(isinstance(t, bool) for t in ts):
+            return any(ts)
+        return zor(*ts)
+    raise Unsupported("any() of %r" % (v,))
+
+
+def _b_tuple(m, args, kw):
+    if not args:
+        return ()
+    if isinstance(args[0], tuple):
+        return args[0]
+    raise Unsupported("tuple(%r)" % (args[0],))
+
+
+def _b_super(m, args, kw):
+    cls, obj = args
+    return SuperProxy(cls if isinstance(cls, str) else getattr(cls, "name", str(cls)), obj)
+
+
 def _b_sum(m, args, kw):
     raise Unsupported("sum()")
 
 
 BUILTINS = {
-    "isinf": _b_isinf, "divmod": _b_divmod, "random.uniform": _b_uniform,
+    "super": _b_super, "isinf": _b_isinf, "divmod": _b_divmod, "all": _b_all, "any": _b_any, "tuple": _b_tuple, "random.uniform": _b_uniform,
     "operator.ge": _b_op("ge"), "operator.gt": _b_op("gt"), "operator.le": _b_op("le"), "operator.lt": _b_op("lt"),
     "operator.add": _b_op("add"), "operator.sub": _b_op("sub"), "operator.mul": _b_op("mul"),
     "next": _b_next, "iter": _b_iter, "xrange": _b_xrange, "range": _b_xrange, "len": _b_len, "int": _b_int,
